@@ -1,5 +1,6 @@
 import Pycoin.Proofs.CodecLaws
 import Pycoin.Props.C11
+import Pycoin.Proofs.Base58Hash
 import Pycoin.Model.RealEnv
 /-!
 `realEnv` (the C11 codec models behind the address model's `Env`) satisfies `CodecLaws`: the glue between Python `str`
@@ -42,37 +43,18 @@ theorem asciiString_asciiBytesOf (s : String) (h : isAscii s = true) : asciiStri
 
 /-! ## Base58Check -/
 
-theorem b2aHashed_ok (d : Bytes) : ∃ s, b2aHashed d = .ok s ∧ a2bHashed s = .ok d ∧ ∀ c ∈ s, c ∈ base58Alphabet := by
-  obtain ⟨s, h1, h2⟩ := C11_b58check_rt d
-  exact ⟨s, h1, h2, b2a_mem _ s (by simpa [b2aHashed] using h1)⟩
-
-theorem real_b58_rt (d : Bytes) (_hd : d ≠ []) : realEnv.b58cDec (realEnv.b58cEnc d) = some d := by
-  obtain ⟨s, h1, h2, h3⟩ := b2aHashed_ok d
+theorem real_b58_rt (k : HashKind) (d : Bytes) (_hd : d ≠ []) : realEnv.b58cDec k (realEnv.b58cEnc k d) = some d := by
+  obtain ⟨s, h1, h3, h2⟩ := parseK_b2aK k d
   have hasc : isAscii (asciiString s) = true := isAscii_asciiString s (fun c hc => alphabet_ascii c (h3 c hc))
-  simp only [realEnv, h1, hasc, if_true, asciiBytesOf_asciiString, C11_parse_b58_agrees, h2]
+  simp only [realEnv, h1, hasc, if_true, asciiBytesOf_asciiString, h2]
 
-theorem real_b58_canon (s : String) (d : Bytes) (h : realEnv.b58cDec s = some d) : realEnv.b58cEnc d = s := by
+theorem real_b58_canon (k : HashKind) (s : String) (d : Bytes) (h : realEnv.b58cDec k s = some d) :
+    realEnv.b58cEnc k d = s := by
   simp only [realEnv] at h
   split at h
   · rename_i hasc
-    rw [C11_parse_b58_agrees] at h
-    cases ha : a2bHashed (asciiBytesOf s) with
-    | error e => rw [ha] at h; cases h
-    | ok d' =>
-      rw [ha] at h
-      injection h with h; subst h
-      have hraw := (C11_b58check_accepts_iff _ _).mp ha
-      have hall : ∀ c ∈ asciiBytesOf s, c ∈ base58Alphabet := by
-        apply Classical.byContradiction
-        intro hn
-        have : ∃ c ∈ asciiBytesOf s, c ∉ base58Alphabet := by
-          simpa [Classical.not_forall] using hn
-        have := (C11_b58_rejects _).mpr this
-        rw [this] at hraw; cases hraw
-      obtain ⟨bs, hb1, hb2⟩ := C11_b58_enc_dec _ hall
-      rw [hraw] at hb1; injection hb1 with hb1; subst hb1
-      have henc : b2aHashed d' = .ok (asciiBytesOf s) := by simpa [b2aHashed] using hb2
-      simp only [realEnv, henc, asciiString_asciiBytesOf s hasc]
+    have henc := b2aK_parseK k _ _ h
+    simp only [realEnv, henc, asciiString_asciiBytesOf s hasc]
   · cases h
 
 theorem real_b58_laws : B58Laws realEnv := ⟨real_b58_rt, real_b58_canon⟩
